@@ -2,7 +2,11 @@
 consumes that `Result`.
 
 Scans all non-test Rust sources of the two crates. An *error-returning function* is a `fn` whose
-return type is `Result<_, X::Error>` (X a type parameter or Self: the draw target's error type).
+return type is `Result<_, E>` — written out or through `type` aliases of the scanned sources
+(`type R<E> = Result<(), E>`) — with E EXACTLY a path ending in `::Error` (`D::Error`, `T::Error`,
+`<D as DrawTarget>::Error`; `Self::Error` only if the surrounding impl/trait declares `type Error;`,
+assigns `type Error = X::Error;` or does not mention it). `Result<(), Wrap<D::Error>>` or
+`type Error = Wrap<T::Error>` is NOT one: a `?` there converts the error value through `From`.
 Every call site of such a function (by name) inside any function body is classified by what
 happens to its value. A site is classified as *propagating* only if, whenever the call returns
 `Err(e)`, the enclosing function returns `Err(e)` (the same value) at once, i.e. without evaluating
@@ -12,23 +16,35 @@ any other call site first:
              that itself returns the target's error, not inside a closure
   tail       value of the enclosing function body (directly, or as the value of a tail `if/else`
              / `match` arm / block), and the enclosing function is itself error-returning
-  ret        `return <call>;` (same conditions as q)
+  ret        `return <call>;`, `if c { return <call> }`, `pat => return <call>,` (same conditions as q)
   bound_q    `let x = <call>;` whose FIRST later mention of `x` is `x?` (or `x` as the value of the
              function body) in the same block at the same nesting depth (so it is reached
              unconditionally), with no other call site, `?`, `return`, `break` or `continue` in between
-  match_ret  `match <call> { Err(e) => return Err(e), .. }` (the only arm mentioning `Err`, no arm
-             before it that could match an `Err`) and `if let Err(e) = <call> { return Err(e); }`
-  tryclosure value (tail, `?` or `return`) of a closure passed to `try_for_each`/`try_fold` whose
-             own result is q/tail/ret/...
+  match_ret  `match <call> { Err(e) => return Err(e), .. }` or `e @ Err(_) => return e` (the only arm
+             mentioning `Err`, no guard, only `Ok(..)` arms before it) and
+             `if let Err(e) = <call> { return Err(e); }`
+  tryclosure value (tail, `?` or `return`) of a closure that is a whole argument of the standard
+             `try_for_each`/`try_fold` whose own result is q/tail/ret/... (not trusted when the scanned
+             sources define a function of that name themselves)
+
+Closures: a site is *inside a closure* when ANY `|..|` / `||` / `move |..|` head encloses it — with a
+block body or without braces (`let g = |i| match i { .. <site>? .. }`), bound by `let` or passed as an
+argument (`closure_at`). `?` / `return` there only leave the closure, so whatever the form, a site
+inside a closure is non-propagating unless the innermost closure is a `tryclosure` one.
+
+Macros: a site inside the body of a `macro_rules!` is `unknown` (the body is expanded elsewhere, e.g.
+inside a closure whose result is dropped) unless it is inside a whole `fn` item of that body; sites of
+macro bodies outside every function are listed with fn = "macro_rules! NAME".
 
 Everything else does not propagate:
 
   discarded  a form known to drop, defer or change the error: `;` statement, `let _ =`, `.ok()`,
              `.unwrap_or*`, `.is_ok()`, `.err()`, `.or_else(..)`, `.map_err(..)`, `.and_then(..)`,
-             `.and(..)`, closure passed to a non-`try_` adaptor, argument of another call, a bound
-             variable that is used late / conditionally / never, `?` in a closure or in a function
-             with another error type, ...
-  unknown    a form this scan does not understand (counts as not propagating)
+             `.and(..)`, closure passed to a non-`try_` adaptor (std or home-made) or bound by `let`,
+             argument of another call, a bound variable that is used late / conditionally / never,
+             `?` in a function returning another error type, ...
+  unknown    a form this scan does not understand (counts as not propagating): macro bodies, `?` in a
+             function whose error type mentions but is not exactly the target's, ...
 
 Output: lean/EG/Generated/DrawSites.lean with one record per site, plus the number of call
 expressions per file found by an INDEPENDENT textual scan (`textual_scan`, line oriented, no
@@ -38,8 +54,9 @@ generated file and breaks the theorems; `sites_match_textual_scan` breaks when t
 parser does not see a call expression that the textual scan sees (or vice versa).
 
 `generate()` (run by tools/translate.py on every ./check) first runs `selftest()` on the snippets
-in tools/tests/drawsites_cases.rs (every function there carries its expected kinds in a
-`// expect:` comment); `python3 tools/tr_drawsites.py --selftest` runs it alone.
+in tools/tests/drawsites_cases*.rs (every function there carries its expected kinds in a
+`// expect:` comment; each file is scanned as a source tree of its own);
+`python3 tools/tr_drawsites.py --selftest` runs it alone.
 """
 import os
 import re
@@ -81,6 +98,18 @@ def blank_comments_and_strings(src):
                     if src[i] != "\n":
                         out[i] = " "
                     i += 1
+        elif c == "r" and (i == 0 or not (src[i - 1].isalnum() or src[i - 1] == "_") or (src[i - 1] == "b" and (i < 2 or not (src[i - 2].isalnum() or src[i - 2] == "_")))) \
+                and re.match(r'r#*"', src[i:i + 80]):
+            # raw string r"..", r#".."#, br##".."## (no escapes; ends at `"` followed by the same number of `#`)
+            hashes = len(re.match(r'r(#*)"', src[i:i + 80]).group(1))
+            i += 1 + hashes + 1
+            end = src.find('"' + "#" * hashes, i)
+            if end < 0:
+                end = n
+            for k in range(i, end):
+                if src[k] != "\n":
+                    out[k] = " "
+            i = end + 1 + hashes
         elif c == '"':
             i += 1
             while i < n and src[i] != '"':
@@ -161,11 +190,106 @@ def strip_tests(s):
     return out
 
 
+def split_top(text):
+    """split at commas that are outside ( ) [ ] { } and < > (`->` is not a closing angle bracket)"""
+    parts, depth, cur = [], 0, []
+    for k, ch in enumerate(text):
+        if ch in "([{<":
+            depth += 1
+        elif ch in ")]}" or (ch == ">" and not (k > 0 and text[k - 1] == "-")):
+            depth -= 1
+        if ch == "," and depth == 0:
+            parts.append("".join(cur))
+            cur = []
+        else:
+            cur.append(ch)
+    parts.append("".join(cur))
+    return [p.strip() for p in parts]
+
+
+# a path that ends in `::Error` with nothing around it: `D::Error`, `Self::Error`, `<D as DrawTarget>::Error`
+EXACT_ERROR_PATH = re.compile(r"^(?:<[^<>]*>|\w+)(?:\s*::\s*\w+)*\s*::\s*Error$")
+ALIAS_DECL = re.compile(r"\btype\s+(\w+)\s*(?:<([^=;]*)>)?\s*=\s*([^;]+);")
+RESULT_HEAD = re.compile(r"^(?:(?:::\s*)?(?:core|std)\s*::\s*result\s*::\s*)?Result\s*<(.*)>$", re.S)
+
+
+def find_aliases(s):
+    """`type NAME<P, ..> = <something mentioning Result>;` -> {NAME: ([P, ..], rhs)}"""
+    out = {}
+    for m in ALIAS_DECL.finditer(s):
+        rhs = " ".join(m.group(3).split())
+        if not re.search(r"\bResult\s*<", rhs):
+            continue
+        params = [p.split(":")[0].strip() for p in split_top(m.group(2))] if m.group(2) else []
+        out[m.group(1)] = (params, rhs)
+    return out
+
+
+def error_type(ret, aliases):
+    """the error type of a return type if it is `Result<T, E>` (directly or through `type` aliases of
+    the scanned sources) with E exactly a path ending in `::Error`; None otherwise — in particular for
+    `Result<(), Wrap<D::Error>>`, where `?` converts the error value through `From`"""
+    ret = " ".join(ret.split())
+    for _ in range(4):
+        m = RESULT_HEAD.match(ret)
+        if m and not ("Result" in aliases and ret.startswith("Result")):
+            parts = split_top(m.group(1))
+            if len(parts) != 2:
+                return None
+            return parts[1] if EXACT_ERROR_PATH.match(parts[1]) else None
+        m = re.match(r"^(?:\w+\s*::\s*)*(\w+)\s*(?:<(.*)>)?$", ret, re.S)
+        if not m or m.group(1) not in aliases:
+            return None
+        params, rhs = aliases[m.group(1)]
+        args = split_top(m.group(2)) if m.group(2) else []
+        if len(args) != len(params):
+            return None
+        sub = dict(zip(params, args))
+        ret = re.sub(r"(?<![\w:])(" + "|".join(map(re.escape, params)) + r")\b", lambda mm: sub[mm.group(1)], rhs) if params else rhs
+    return None
+
+
+def self_error_is_targets(s, pos):
+    """`Self::Error` in the signature at pos: look at the enclosing `impl` / `trait` block. True if the
+    block declares `type Error;` (the trait itself), assigns `type Error = X::Error;` (an adapter
+    handing the inner target's error on) or does not mention `type Error` at all (an extension
+    trait: Self is the target). False for `type Error = Wrap<T::Error>`, `= Infallible`, ..."""
+    op = enclosing_open(s, pos, 0)
+    if op is None or s[op] != "{":
+        return False
+    header = s[stmt_start(s, op, 0): op]
+    if not re.search(r"\b(impl|trait)\b", header):
+        return False
+    close = match_close(s, op)
+    flat, depth = [], 0
+    for ch in s[op + 1: close]:
+        if ch in "([{":
+            depth += 1
+        elif ch in ")]}":
+            depth -= 1
+        elif depth == 0:
+            flat.append(ch)
+    m = re.search(r"\btype\s+Error\b([^;]*);", "".join(flat))
+    if not m:
+        return True
+    if "=" not in m.group(1):
+        return True
+    rhs = " ".join(m.group(1).split("=", 1)[1].split())
+    return bool(EXACT_ERROR_PATH.match(rhs)) and not rhs.startswith("Self")
+
+
 class Fn:
-    def __init__(self, name, ret, body_open, body_close, file):
-        self.name, self.ret, self.open, self.close, self.file = name, ret, body_open, body_close, file
-        # the draw target's error type: `D::Error`, `T::Error`, `Self::Error` ... (TryFrom's is not one)
-        self.err = bool(re.search(r"Result\s*<.*::\s*Error\s*>", ret, re.S)) and name not in ("try_from", "try_into")
+    def __init__(self, name, ret, body_open, body_close, file, pos=0):
+        self.name, self.ret, self.open, self.close, self.file, self.pos = name, ret, body_open, body_close, file, pos
+        self.err = False  # set by resolve_err once the aliases of all files are known
+
+    def resolve_err(self, s, aliases):
+        """does the function return the draw target's error type itself: `Result<_, X::Error>` with
+        the error type EXACTLY a path ending in `::Error` (TryFrom's is not one)"""
+        e = error_type(self.ret, aliases)
+        self.err = e is not None and self.name not in ("try_from", "try_into")
+        if self.err and re.match(r"Self\b", e):
+            self.err = self_error_is_targets(s, self.pos)
 
 
 def find_fns(s, file):
@@ -186,12 +310,12 @@ def find_fns(s, file):
         if i >= len(s) or s[i] == ";":
             sig = s[m.end(): i]
             ret = sig.split("->", 1)[1] if "->" in sig else ""
-            fns.append(Fn(m.group(1), ret, None, None, file))
+            fns.append(Fn(m.group(1), ret, None, None, file, m.start()))
             continue
         sig = s[m.end(): i]
         ret = sig.split("->", 1)[1] if "->" in sig else ""
         ret = ret.split("where")[0]
-        fns.append(Fn(m.group(1), ret, i, match_close(s, i), file))
+        fns.append(Fn(m.group(1), ret, i, match_close(s, i), file, m.start()))
     return fns
 
 
@@ -215,49 +339,149 @@ def stmt_start(s, i, lo):
     return lo
 
 
-CLOSURE_HEAD = r"(?:\bmove\s*)?\|[^|]*\|\s*(?:->\s*[^{]+)?"
+EXPR_START_KEYWORDS = {"move", "return", "in", "else", "match", "if", "while", "break", "yield", "async", "static", "mut"}
 
 
-def innermost_closure(s, fn, pos):
-    """the opener (`{` of a block-bodied closure, or `(` of the call a brace-less closure is an
-    argument of) of the innermost closure whose body contains position pos; None if pos is
-    directly in the function's own body. Returns (opener index, paren?)."""
-    i = pos
-    while True:
-        op = enclosing_open(s, i, fn.open)
-        if op is None or op == fn.open:
-            return None
-        if s[op] == "{":
-            header = s[stmt_start(s, op, fn.open + 1): op]
-            if re.search(CLOSURE_HEAD + r"$", header):
-                return (op, False)
-        elif s[op] == "(":
-            seg = s[op + 1: pos]
+def level_start(s, i, lo):
+    """start of the text, at the bracket level of position i, that belongs to the same statement as i:
+    after the previous `;` at that level or after the level's opener (bracketed groups, including
+    `{ }` blocks, are skipped: `|i| if c { a } else { <here> }` belongs to the closure's statement)"""
+    j = i - 1
+    while j >= lo:
+        ch = s[j]
+        if ch in ")]}":
+            j = match_open(s, j) - 1
+            continue
+        if ch in "([{":
+            return j + 1
+        if ch == ";":
+            return j + 1
+        j -= 1
+    return lo
+
+
+def closure_head_before(s, a, b):
+    """scan s[a:b] (text of ONE bracket level; nested groups are skipped) for closure heads `|args|`,
+    `||`, `move |args|`. Returns the index of the `|` opening the closure whose body contains
+    position b, or None. A `|` is a closure head iff it stands where an expression starts (after
+    `( , = ; { } [ => ! &` or a keyword such as `move` / `return`); after an operand it is a
+    binary or / an or-pattern. A closure body without braces ends at the next `,` of its level
+    (not a comma inside `::<..>`, nor one after an unclosed `<`: `x as P<A, B>`; a `-> Type` after
+    the head is skipped up to the body's `{`). When in doubt the answer is "inside a closure"."""
+    i, inside, angle = a, None, 0
+    while i < b:
+        ch = s[i]
+        if ch == "<":
+            angle += 1
+        elif ch == ">" and s[i - 1] not in "-=":
+            angle -= 1
+        if ch in "([{":
+            i = match_close(s, i) + 1
+            continue
+        if s.startswith("::", i) and re.match(r"::\s*<", s[i:i + 8]):
+            # turbofish: skip to the matching `>`
+            k = s.index("<", i)
             depth = 0
-            last_comma = -1
-            for k, ch in enumerate(seg):
-                if ch in "([{":
+            while k < b:
+                if s[k] == "<":
                     depth += 1
-                elif ch in ")]}":
+                elif s[k] == ">" and s[k - 1] != "-":
                     depth -= 1
-                elif ch == "," and depth == 0:
-                    last_comma = k
-            if re.match(r"\s*" + CLOSURE_HEAD, seg[last_comma + 1:]):
-                return (op, True)
-        i = op
+                    if depth == 0:
+                        break
+                k += 1
+            i = k + 1
+            continue
+        if ch == ",":
+            if angle <= 0:
+                inside = None
+            i += 1
+            continue
+        if ch == "|":
+            j = i - 1
+            while j >= a and s[j].isspace():
+                j -= 1
+            if j < a or s[j] in "(,=;{}[!&|" or (s[j] == ">" and j > 0 and s[j - 1] == "="):
+                starts = True
+            elif s[j].isalnum() or s[j] == "_":
+                k = j
+                while k >= a and (s[k].isalnum() or s[k] == "_"):
+                    k -= 1
+                starts = s[k + 1: j + 1] in EXPR_START_KEYWORDS
+            else:
+                starts = False
+            double = s.startswith("||", i)
+            if not starts:
+                i += 2 if double else 1
+                continue
+            inside, angle = i, 0
+            if double:
+                i += 2
+            else:
+                # closing `|` of the argument list (patterns may contain bracketed groups)
+                k = i + 1
+                while k < b and s[k] != "|":
+                    k = match_close(s, k) + 1 if s[k] in "([{" else k + 1
+                i = k + 1
+            m = re.match(r"\s*->", s[i:b])
+            if m:
+                # explicit return type: the body is the next `{`
+                k = s.find("{", i + m.end(), b)
+                i = b if k < 0 else k
+            continue
+        i += 1
+    return inside
+
+
+def closure_at(s, fn, pos):
+    """innermost closure (with or without braces, `move` or not, bound by `let` or passed as an
+    argument) whose body contains position pos: (index of its opening `|`, opener of the bracket
+    level the closure expression stands in); None if pos is directly in the function's own body."""
+    child = pos
+    while True:
+        op = enclosing_open(s, child, fn.open)
+        if op is None:
+            return None
+        head = closure_head_before(s, level_start(s, child, op + 1), child)
+        if head is not None:
+            return (head, op)
+        if op == fn.open:
+            return None
+        child = op
+
+
+def closure_body_at(s, fn, pos):
+    """(head, level opener) of the closure whose body STARTS at position pos (`|args| <pos>`, or
+    `|args| -> T <pos>{`), else None"""
+    clo = closure_at(s, fn, pos)
+    if clo is None:
+        return None
+    head = clo[0]
+    if s.startswith("||", head):
+        k = head + 2
+    else:
+        k = head + 1
+        while k < pos and s[k] != "|":
+            k = match_close(s, k) + 1 if s[k] in "([{" else k + 1
+        k += 1
+    between = s[k:pos].strip()
+    if between == "" or (s[pos] == "{" and re.match(r"^->[^{;]*$", between)):
+        return clo
+    return None
 
 
 def exits_function(s, fn, expr_start, how, depth_guard):
     """`?` / `return` at expr_start: leaves the function with the error only if it is not inside a
     closure and the function returns the target's error type"""
-    clo = innermost_closure(s, fn, expr_start)
+    clo = closure_at(s, fn, expr_start)
     if clo is not None:
-        op, paren = clo
-        k, d = classify_closure(s, fn, op, match_close(s, op), depth_guard, paren=paren)
+        k, d = classify_closure(s, fn, clo[0], clo[1], depth_guard)
         if k == "tryclosure":
             return ("tryclosure", how + " in closure of " + d)
-        return ("discarded", how + " inside a closure: " + d)
+        return (k if k == "unknown" else "discarded", how + " inside a closure: " + d)
     if not fn.err:
+        if re.search(r"\bError\b", fn.ret) or not re.search(r"\bResult\b", fn.ret):
+            return ("unknown", how + " in fn " + fn.name + " whose error type is not exactly the target's (`?` may convert the error)")
         return ("discarded", how + " in fn " + fn.name + " which does not return the target's error")
     return None
 
@@ -334,12 +558,17 @@ def classify_scrutinee(s, fn, expr_start, brace, depth_guard):
         k = err_arms[0]
         pattern, expr = arms[k]
         m = re.match(r"^Err\s*\(\s*(\w+)\s*\)$", pattern)
-        if not m or m.group(1) == "_":
+        m2 = re.match(r"^(\w+)\s*@\s*Err\s*\(\s*_\s*\)$", pattern)
+        if m2 and m2.group(1) != "_":
+            # `e @ Err(_) => return e`: the whole `Result` is returned as it is
+            value = re.escape(m2.group(1))
+        elif m and m.group(1) != "_":
+            value = r"Err\s*\(\s*" + re.escape(m.group(1)) + r"\s*\)"
+        else:
             return ("discarded", "Err arm pattern `" + pattern[:30] + "`")
-        e = re.escape(m.group(1))
-        if not (re.match(r"^return\s+Err\s*\(\s*" + e + r"\s*\)$", expr)
-                or re.match(r"^\{\s*return\s+Err\s*\(\s*" + e + r"\s*\)\s*;?\s*\}$", expr)):
-            return ("discarded", "Err arm is not `return Err(" + m.group(1) + ")`")
+        if not (re.match(r"^return\s+" + value + r"$", expr)
+                or re.match(r"^\{\s*return\s+" + value + r"\s*;?\s*\}$", expr)):
+            return ("discarded", "Err arm `" + pattern[:20] + "` does not return that error at once")
         for pattern2, _ in arms[:k]:
             if not re.match(r"^Ok\s*\(", pattern2):
                 return ("discarded", "arm `" + pattern2[:30] + "` before the Err arm")
@@ -424,6 +653,12 @@ def classify(s, fn, expr_start, e, depth_guard=0):
         if head == "":
             return ("discarded", "expression statement")
         return ("discarded", "statement: " + head[:30])
+    if c in "},":
+        # `if c { return <call> }` / `pattern => return <call>,`: a `return` of the call expression itself
+        head = s[stmt_start(s, expr_start, fn.open + 1): expr_start].strip()
+        if re.search(r"(^|=>\s*)return$", head):
+            bad = exits_function(s, fn, expr_start, "return", depth_guard)
+            return bad if bad else ("ret", "")
     if c in "},)":
         # value of an enclosing construct
         op = enclosing_open(s, expr_start, fn.open)
@@ -438,8 +673,9 @@ def classify(s, fn, expr_start, e, depth_guard=0):
             header_start = stmt_start(s, op, fn.open + 1)
             header = s[header_start:op].strip()
             # closure with a block body: `|args| {`
-            if re.search(CLOSURE_HEAD + r"$", header):
-                return classify_closure(s, fn, op, close, depth_guard)
+            clo = closure_body_at(s, fn, op)
+            if clo is not None:
+                return classify_closure(s, fn, clo[0], clo[1], depth_guard)
             if c == "," or (c == "}" and re.search(r"\bmatch\b", header) and not re.search(r"=>\s*$", header)):
                 # match arm value: the value of the whole match expression
                 if re.search(r"\bmatch\b", header):
@@ -485,41 +721,42 @@ def classify(s, fn, expr_start, e, depth_guard=0):
                 return classify(s, fn, start, end, depth_guard + 1)
             return ("unknown", "block header: " + header[-30:])
         if s[op] == "(":
-            # argument of a call: closure without braces?
-            arg_start = op + 1
-            # the argument containing the expression starts after the previous top-level comma
-            seg = s[arg_start:expr_start]
-            depth = 0
-            last_comma = -1
-            for k, ch in enumerate(seg):
-                if ch in "([{":
-                    depth += 1
-                elif ch in ")]}":
-                    depth -= 1
-                elif ch == "," and depth == 0:
-                    last_comma = k
-            arg_head = seg[last_comma + 1:].strip()
-            if re.match(CLOSURE_HEAD + r"$", arg_head):
-                return classify_closure(s, fn, op, match_close(s, op), depth_guard, paren=True)
+            # argument of a call: the whole body of a closure without braces?
+            clo = closure_body_at(s, fn, expr_start)
+            if clo is not None and clo[1] == op:
+                return classify_closure(s, fn, clo[0], clo[1], depth_guard)
             return ("discarded", "argument of a call")
         return ("discarded", "inside [ ]")
     return ("unknown", "followed by " + repr(s[i:i + 12]))
 
 
-def classify_closure(s, fn, op, close, depth_guard, paren=False):
-    """value of a closure body: which adaptor receives the closure?"""
-    call_open = op if paren else enclosing_open(s, op, fn.open)
-    if call_open is None or s[call_open] != "(":
+def classify_closure(s, fn, head, level_open, depth_guard):
+    """value of the body of the closure whose opening `|` is at head (level_open = opener of the
+    bracket level it stands in): which adaptor receives the closure?"""
+    if s[level_open] != "(":
         return ("discarded", "closure not passed to a call")
-    m = re.search(r"\.\s*(\w+)\s*(::\s*<[^>]*>)?\s*$", s[:call_open])
+    # the closure must be a whole argument: nothing but `move` between the previous `,` / `(` and its `|`
+    j = head - 1
+    while j > level_open and s[j].isspace():
+        j -= 1
+    if s[j - 3: j + 1] == "move" and not (s[j - 4].isalnum() or s[j - 4] == "_"):
+        j -= 4
+        while j > level_open and s[j].isspace():
+            j -= 1
+    if j != level_open and s[j] != ",":
+        return ("discarded", "closure inside a larger argument expression")
+    call_open = level_open
+    m = re.search(r"\.\s*(\w+)\s*(::\s*<[^>]*>)?\s*$", s[max(0, call_open - 200): call_open])
     if not m:
         return ("discarded", "closure passed to a function")
     name = m.group(1)
     if name in TRY_ADAPTORS:
+        if name in getattr(fn, "own_try", ()):
+            return ("unknown", "closure passed to ." + name + ", but the scanned sources define their own fn " + name)
         # receiver expression start: approximate with the statement start
         st = stmt_start(s, call_open, fn.open + 1)
-        head = s[st:call_open]
-        mm = re.match(r"\s*(return\s+|let\s+(mut\s+)?\w+\s*(:[^=]*)?=\s*)?", head)
+        head_txt = s[st:call_open]
+        mm = re.match(r"\s*(return\s+|let\s+(mut\s+)?\w+\s*(:[^=]*)?=\s*)?", head_txt)
         k, d = classify(s, fn, st + (mm.end() if mm else 0), match_close(s, call_open) + 1, depth_guard + 1)
         if k in PROPAGATING:
             return ("tryclosure", name)
@@ -542,24 +779,41 @@ def site_pattern(names):
     return re.compile(r"(?<![\w])(?:\.\s*)?\b(" + "|".join(sorted(map(re.escape, names))) + r")\s*(::\s*<[^>]*>)?\s*\(")
 
 
+def macro_bodies(s):
+    """[(name, opener index, closer index)] of every `macro_rules! name { .. }` in s"""
+    out = []
+    for m in re.finditer(r"\bmacro_rules\s*!\s*(\w+)\s*([\{\(\[])", s):
+        out.append((m.group(1), m.end() - 1, match_close(s, m.end() - 1)))
+    return out
+
+
 def scan(repo):
     files = source_files(repo)
     parsed = {}
     err_names = set()
+    aliases = {}
+    own_try = set()
     for f in files:
         src = open(f).read()
         s = strip_tests(blank_comments_and_strings(src))
         fns = find_fns(s, f)
         parsed[f] = (s, fns)
+        aliases.update(find_aliases(s))
+    for f, (s, fns) in parsed.items():
         for fn in fns:
+            fn.resolve_err(s, aliases)
+            fn.own_try = own_try
             if fn.err:
                 err_names.add(fn.name)
+            if fn.name in TRY_ADAPTORS:
+                own_try.add(fn.name)
     sites = []
     if not err_names:
         raise ValueError("no error-returning function found: the scan no longer understands the sources")
     pat = site_pattern(err_names)
     for f, (s, fns) in parsed.items():
         rel = os.path.relpath(f, repo)
+        macros = macro_bodies(s)
         for fn in fns:
             if fn.open is None:
                 continue
@@ -611,7 +865,38 @@ def scan(repo):
                     es = start
                 line = s.count("\n", 0, start) + 1
                 kind, detail = classify(s, fn, es, call_close + 1)
-                sites.append({"file": rel, "line": line, "fn": fn.name, "callee": name, "kind": kind, "detail": detail})
+                # whatever the form: a site inside a closure leaves the function only through a propagated
+                # `try_` adaptor, and a `tryclosure` site must really be inside such a closure
+                clo = closure_at(s, fn, es)
+                if clo is None:
+                    if kind == "tryclosure":
+                        kind, detail = "unknown", "classified tryclosure but not inside a closure"
+                elif kind in PROPAGATING:
+                    k2, d2 = classify_closure(s, fn, clo[0], clo[1], 0)
+                    if k2 == "tryclosure":
+                        kind = "tryclosure"
+                    else:
+                        kind, detail = (k2 if k2 == "unknown" else "discarded"), "inside a closure: " + d2
+                # the body of a `macro_rules!` is expanded somewhere else: what `?` / `return` / tail position mean
+                # there is not known here — unless the site is inside a `fn` item that is itself part of the macro body
+                for mname, mo, mc in macros:
+                    if mo < start < mc and not (fn.open > mo and fn.close < mc):
+                        kind, detail = "unknown", "inside the body of macro_rules! " + mname + " (expanded elsewhere)"
+                sites.append({"file": rel, "line": line, "fn": fn.name, "callee": name, "kind": kind, "detail": detail, "pos": start,
+                              "fnline": s.count("\n", 0, fn.pos) + 1})
+        # call expressions in macro bodies outside every function body
+        for mname, mo, mc in macros:
+            for m in pat.finditer(s[mo: mc + 1]):
+                start = mo + m.start()
+                if re.search(r"\bfn\s+$", s[max(0, start - 8): start + (1 if s[start] == '.' else 0)]):
+                    continue
+                if any(g.open is not None and g.open < start < g.close for g in fns):
+                    continue
+                sites.append({"file": rel, "line": s.count("\n", 0, start) + 1, "fn": "macro_rules! " + mname, "callee": m.group(1),
+                              "kind": "unknown", "detail": "inside the body of macro_rules! " + mname + ", outside any fn (expanded elsewhere)", "pos": start,
+                              "fnline": s.count("\n", 0, mo) + 1})
+    order = {os.path.relpath(f, repo): k for k, f in enumerate(parsed)}
+    sites.sort(key=lambda st: (order[st["file"]], st["pos"]))
     return sites, sorted(err_names)
 
 
@@ -629,6 +914,7 @@ def textual_scan(repo):
         out = []
         skipping = None  # None, "armed" (saw #[cfg(test)], waiting for the mod's `{`) or the brace depth inside it
         for ln in text.split("\n"):
+            ln = re.sub(r'\bb?r(#*)".*?"\1', '""', ln)  # one-line raw strings r".." / r#".."#
             ln = re.sub(r'"(?:[^"\\]|\\.)*"', '""', ln)
             ln = re.sub(r"'(?:[^'\\]|\\.)'", "' '", ln)
             ln = ln.split("//")[0]
@@ -652,11 +938,63 @@ def textual_scan(repo):
                 continue
             out.append(ln)
         texts[os.path.relpath(f, repo)] = "\n".join(out)
+    # names: the return type, with the `type` aliases of the sources expanded textually, must END in
+    # `, PATH::Error>` with PATH a plain or `<A as B>` path and that `>` closing the `Result<` (so
+    # `Result<(), Wrap<D::Error>>` is not one); for `Self::Error` the surrounding impl/trait (the text
+    # between the nearest lines starting with `impl` / `trait` before and after) must not assign
+    # `type Error = ` anything but such a path
+    tail_re = re.compile(r"^(?:::)?(?:(?:core|std)::result::)?Result<[^;]*,((?:<[^<>]*>|\w+)(?:::\w+)*::Error)>$")
+    alias_re = re.compile(r"\btype\s+(\w+)\s*(?:<([^=;<>]*)>)?\s*=\s*([^;]*\bResult\s*<[^;]*);")
+    talias = {}
+    for text in texts.values():
+        for m in alias_re.finditer(text):
+            talias[m.group(1)] = ([p.split(":")[0].strip() for p in m.group(2).split(",")] if m.group(2) else [], "".join(m.group(3).split()))
+    block_re = re.compile(r"^[ \t]*(?:pub(?:\([^)]*\))?[ \t]+)?(?:unsafe[ \t]+)?(?:impl|trait)\b", re.M)
     names = set()
     for text in texts.values():
+        blocks = [m.start() for m in block_re.finditer(text)]
         for m in re.finditer(r"\bfn\s+(\w+)\b([^{;]*)", text):
-            if re.search(r"->\s*Result\s*<.*::\s*Error\s*>", m.group(2), re.S) and m.group(1) not in ("try_from", "try_into"):
-                names.add(m.group(1))
+            if "->" not in m.group(2) or m.group(1) in ("try_from", "try_into"):
+                continue
+            ret = "".join(m.group(2).split("->", 1)[1].split("where")[0].split())  # all white space removed
+            for _ in range(3):
+                am = re.match(r"^(?:\w+::)*(\w+)(?:<(.*)>)?$", ret)
+                if not am or am.group(1) not in talias or (am.group(1) == "Result" and "::" in ret.split("<")[0]):
+                    break
+                params, rhs = talias[am.group(1)]
+                args, depth, cur = [], 0, ""
+                for ch in (am.group(2) or ""):
+                    depth += ch in "<([" 
+                    depth -= ch in ">)]"
+                    if ch == "," and depth == 0:
+                        args.append(cur)
+                        cur = ""
+                    else:
+                        cur += ch
+                if cur:
+                    args.append(cur)
+                if len(args) != len(params):
+                    break
+                for p_, a_ in zip(params, args):
+                    rhs = re.sub(r"(?<![\w:])" + re.escape(p_) + r"\b", "\0" + a_ + "\0", rhs)
+                ret = rhs.replace("\0", "")
+            tm = tail_re.match(ret)
+            if not tm:
+                continue
+            # the `, PATH::Error>` must be the second argument of the outermost Result< >: no unclosed `<` `(` before the comma
+            inner = ret[ret.index("<") + 1: ret.rindex("," + tm.group(1))]
+            if inner.count("<") != inner.count(">") - inner.count("->") or inner.count("(") != inner.count(")"):
+                continue
+            if tm.group(1).startswith("Self::"):
+                lo = max([b for b in blocks if b <= m.start()], default=None)
+                if lo is None:
+                    continue
+                hi = min([b for b in blocks if b > m.start()], default=len(text))
+                tm2 = re.search(r"\btype\s+Error\s*=\s*([^;]*);", text[lo:hi])
+                rhs = "".join(tm2.group(1).split()) if tm2 else None
+                if rhs is not None and (rhs.startswith("Self") or not re.match(r"^(?:<[^<>]*>|\w+)(?:::\w+)*::Error$", rhs)):
+                    continue
+            names.add(m.group(1))
     if not names:
         raise ValueError("textual scan: no error-returning function found")
     call = re.compile(r"(?<![\w])(" + "|".join(sorted(map(re.escape, names))) + r")\s*(?:::\s*<[^>]*>)?\s*\(")
@@ -675,18 +1013,18 @@ def textual_scan(repo):
 # ---------------------------------------------------------------------------------------------
 # self-test: tools/tests/drawsites_cases.rs
 
-def selftest():
-    """Every `fn` of tools/tests/drawsites_cases.rs is preceded by `// expect: kind kind ...` (the
-    expected kinds of its call sites in source order). Returns the list of mismatches."""
+def selftest_file(case_file):
+    """Every `fn` (and every `macro_rules!` with call sites) of a case file is preceded by
+    `// expect: kind kind ...` (the expected kinds of its call sites in source order). The file is
+    scanned as the only source of a scratch repository. Returns the list of mismatches."""
     import shutil, tempfile
-    here = os.path.dirname(os.path.abspath(__file__))
-    case_file = os.path.join(here, "tests", "drawsites_cases.rs")
+    base = os.path.basename(case_file)
     src = open(case_file).read()
     expected = {}
-    for m in re.finditer(r"//\s*expect:([^\n]*)\n(?:\s*//[^\n]*\n)*\s*(?:pub\s+)?fn\s+(\w+)", src):
-        expected[m.group(2)] = m.group(1).split()
-    if len(expected) < 12:
-        raise ValueError("drawsites self-test: case file not understood")
+    for m in re.finditer(r"//\s*expect:([^\n]*)\n(?:\s*//[^\n]*\n)*\s*(?:(?:pub\s+)?fn\s+(\w+)|macro_rules!\s*(\w+))", src):
+        key = m.group(2) or "macro_rules! " + m.group(3)
+        item = m.start(2) if m.group(2) else m.start(3)
+        expected[(key, src.count("\n", 0, item) + 1)] = m.group(1).split()
     tmp = tempfile.mkdtemp(prefix="drawsites_selftest_")
     try:
         os.makedirs(os.path.join(tmp, "src"))
@@ -697,19 +1035,33 @@ def selftest():
         shutil.rmtree(tmp, ignore_errors=True)
     got = {}
     for st in sites:
-        got.setdefault(st["fn"], []).append(st["kind"])
+        got.setdefault((st["fn"], st["fnline"]), []).append(st["kind"])
     bad = []
-    for name, exp in expected.items():
-        if got.get(name, []) != exp:
-            bad.append(f"{name}: expected {exp}, classified {got.get(name, [])}")
-    for name in got:
-        if name not in expected:
-            bad.append(f"{name}: no `// expect:` line")
+    for key, exp in expected.items():
+        if got.get(key, []) != exp:
+            bad.append(f"{base}: {key[0]} (line {key[1]}): expected {exp}, classified {got.get(key, [])}")
+    for key in got:
+        if key not in expected:
+            bad.append(f"{base}: {key[0]} (line {key[1]}): no `// expect:` line")
     m = re.search(r"//\s*expect-textual-count:\s*(\d+)", src)
     if not m or counts.get(os.path.join("src", "cases.rs")) != int(m.group(1)):
-        bad.append(f"textual scan counted {counts.get(os.path.join('src', 'cases.rs'))} call expressions, case file says {m.group(1) if m else '?'}")
+        bad.append(f"{base}: textual scan counted {counts.get(os.path.join('src', 'cases.rs'))} call expressions, case file says {m.group(1) if m else '?'}")
     if len(sites) != sum(counts.values()):
-        bad.append(f"classifier saw {len(sites)} sites, textual scan {sum(counts.values())}")
+        bad.append(f"{base}: classifier saw {len(sites)} sites, textual scan {sum(counts.values())}")
+    return bad, len(expected)
+
+
+def selftest():
+    """runs selftest_file on tools/tests/drawsites_cases*.rs (each file is a source tree of its own)"""
+    here = os.path.dirname(os.path.abspath(__file__))
+    files = sorted(f for f in os.listdir(os.path.join(here, "tests")) if re.match(r"drawsites_cases\w*\.rs$", f))
+    bad, n = [], 0
+    for f in files:
+        b, k = selftest_file(os.path.join(here, "tests", f))
+        bad += b
+        n += k
+    if n < 40 or len(files) < 2:
+        raise ValueError("drawsites self-test: case files not understood")
     return bad
 
 
